@@ -48,7 +48,8 @@ func genBulkHistory(t *rapid.T) ggen.History {
 		paths = append(paths, p)
 	}
 	authors := []string{"Ann Lee", "Bob 2", "R2D2", "Ann"}[:rapid.IntRange(2, 4).Draw(t, "nBulkAuthors")]
-	subjects := [][2]string{{"fix: update files", "fix"}, {"feat: add tests", "feat"}, {"docs(core): readme", "docs"}, {"cleanup and bump", ""}}
+	subjects := [][2]string{{"fix: update files", "fix"}, {"feat: add tests", "feat"}, {"docs(core): readme", "docs"}, {"cleanup and bump", ""},
+		{"refactor: move files", "refactor"}, {"chore: bump", "chore"}, {"test(api v2): add tests", "test"}}
 	day := 0
 	mk := func(subject [2]string) ggen.Commit {
 		day += rapid.IntRange(0, 1).Draw(t, "bulkDays")
@@ -64,7 +65,7 @@ func genBulkHistory(t *rapid.T) ggen.History {
 	}
 	h.Commits = append(h.Commits, c)
 	live := append([]string(nil), paths...)
-	nc := rapid.IntRange(1, 5).Draw(t, "nBulkCommits")
+	nc := rapid.IntRange(1, 7).Draw(t, "nBulkCommits")
 	for i := 0; i < nc && len(live) > 0; i++ {
 		c := mk(rapid.SampledFrom(subjects).Draw(t, "bulkSubject"))
 		k := rapid.IntRange(1, min(12, len(live))).Draw(t, "bulkTouched")
@@ -346,7 +347,7 @@ func genTables(t *rapid.T) TablesCase {
 	nt := rapid.IntRange(2, 10).Draw(t, "nGoTypes")
 	typePool := []string{"Order", "Item", "Zeta", "Alpha", "Beta", "order", "Items", "Repo", "A", "Zz"}
 	order := rapid.Permutation(typePool[:nt]).Draw(t, "goTypeOrder")
-	for _, name := range order {
+	for ti, name := range order {
 		// 0,1 struct declared before its methods; 2 methods written before the struct; 3 interface
 		shape := rapid.IntRange(0, 3).Draw(t, "goTypeShape")
 		nm := rapid.IntRange(0, 2).Draw(t, "nGoMethods")
@@ -364,9 +365,10 @@ func genTables(t *rapid.T) TablesCase {
 			fmt.Fprintf(&b, "}\n\n")
 		case 2:
 			methods()
-			fmt.Fprintf(&b, "type %s struct {\n\tName string\n\tSize int\n}\n\n", name)
+			fmt.Fprintf(&b, "type %s struct {\n\tName string\n\tSize int\n\tF%d *%s\n}\n\n", name, ti, order[0])
 		default:
-			fmt.Fprintf(&b, "type %s struct {\n\tName string\n}\n\n", name)
+			// every type has a field of its own: entries cannot stand in for one another
+			fmt.Fprintf(&b, "type %s struct {\n\tName string\n\tF%d int\n}\n\n", name, ti)
 			methods()
 		}
 		if rapid.IntRange(0, 3).Draw(t, "goPlainFunc") == 0 {
